@@ -520,7 +520,8 @@ class Engine:
             self.result.opaque.add(fi.key)
             return self.opaque_call(it, fi, args, kwargs)
         if pol == 'contract':
-            cands = [x for x in self.units_by_key.get(fi.key, [])]
+            # bounded stand-in variants are units of their own, never the contract of the function at a call site
+            cands = [x for x in self.units_by_key.get(fi.key, []) if not x.opts.get('bounded')]
             if not cands:
                 raise EngineError('bycontract(%s): no contract unit found' % fi.qual)
             self.result.by_contract.add(fi.key)
